@@ -138,3 +138,54 @@ m('c05-silent-hooks-before-transition', 'C05', P, "            if next_state is 
 m('c05-double-pause-allowed', 'C05', P, "        if self.paused:\n            # Already paused\n            return True\n", "", 'fire', 'Process.pause')
 m('c05-partial-wrong-order', 'C05', P, "do_pause = functools.partial(self._do_pause, exception.msg)", "do_pause = functools.partial(self._do_pause, next_state=None, state_msg=exception.msg)", 'fire', '_create_interrupt_action')
 m('c05-no-rearm', 'C05', PS, "            self._waiting_future = futures.Future()\n            raise", "            raise", 'fire', 'Waiting.execute')
+
+# ------------------------------------------------------------------ C07
+m('c07-drop-status-member', 'C07', P, "    '_status',\n    '_pre_paused_status',", "    '_pre_paused_status',", 'fire', '_status')
+m('c07-outputs-key-renamed-on-load', 'C07', P, "            decoded = self.decode_input_args(saved_state[BundleKeys.OUTPUTS])", "            decoded = self.decode_input_args(saved_state['outputs'])", 'fire', 'load_instance_state')
+m('c07-raw-inputs-loaded-into-parsed', 'C07', P, "            decoded = self.decode_input_args(saved_state[BundleKeys.INPUTS_RAW])\n            self._raw_inputs = utils.AttributesFrozendict(decoded)",
+  "            decoded = self.decode_input_args(saved_state[BundleKeys.INPUTS_RAW])\n            self._parsed_inputs = utils.AttributesFrozendict(decoded)", 'fire', '_raw_inputs')
+m('c07-no-deepcopy-in-save-members', 'C07', PE, "            else:\n                value = copy.deepcopy(value)\n            out_state[member] = value", "            out_state[member] = value", 'fire', 'save_members')
+m('c07-encode-no-copy', 'C07', P, "        return copy.deepcopy(inputs)", "        return inputs", 'fire', 'encode_input_args')
+m('c07-waiting-load-skips-super', 'C07', PS, "        super().load_instance_state(saved_state, load_context)\n        callback_name = saved_state.get(self.DONE_CALLBACK, None)", "        callback_name = saved_state.get(self.DONE_CALLBACK, None)", 'fire', 'Waiting.load_instance_state')
+m('c07-future-default-after-restore', 'C07', P, "        self._state: process_states.State = self.recreate_state(saved_state['_state'])\n", "        self._state: process_states.State = self.recreate_state(saved_state['_state'])\n", 'silent', None, 'identity edit')
+m('c07-future-clobbered', 'C07', P, "        super().load_instance_state(saved_state, load_context)\n\n        # Inputs/outputs\n        try:", "        super().load_instance_state(saved_state, load_context)\n        self._future = persistence.SavableFuture()\n\n        # Inputs/outputs\n        try:", 'fire', '_future')
+m('c07-bundle-tag-mismatch', 'C07', PE, "    return dumper.represent_mapping(_BUNDLE_TAG, node)", "    return dumper.represent_mapping('!plumpy:bundle', node)", 'fire', '_bundle_representer')
+m('c07-state-not-saved', 'C07', P, "        out_state['_state'] = self._state.save()\n", "", 'fire', '_state')
+m('c07-excepted-traceback-key', 'C07', PS, "            out_state[self.TRACEBACK] = ''.join(traceback.format_tb(self.traceback))", "            out_state['tb'] = ''.join(traceback.format_tb(self.traceback))", 'fire', 'Excepted')
+m('c07-context-guard-dropped', 'C07', P, "        if 'communicator' in load_context:\n            self._communicator = load_context.communicator", "        self._communicator = load_context.communicator", 'fire', 'load_instance_state', 'loading with an empty context would raise AttributeError')
+m('c07-silent-new-runtime-attribute', 'C07', P, "        self._uuid: Optional[uuid.UUID] = None", "        self._uuid: Optional[uuid.UUID] = None\n        self._cache: dict = {}", 'silent', None, 'added runtime-only attribute must not alarm')
+m('c07-awaiting-not-persisted', 'C07', WC, "@persistence.auto_persist('_awaiting')\nclass Waiting", "class Waiting", 'fire', '_awaiting')
+m('c07-listener-params-dropped', 'C07', 'src/plumpy/process_listener.py', "@persistence.auto_persist('_params')", "@persistence.auto_persist()", 'fire', '_params')
+
+# ------------------------------------------------------------------ C08
+m('c08-block-child-index-0', 'C08', WC, "            self._child_stepper = self._block[self._pos].recreate_stepper(stepper_state, self._workchain)", "            self._child_stepper = self._block[0].recreate_stepper(stepper_state, self._workchain)", 'fire', '_BlockStepper')
+m('c08-pos-not-persisted', 'C08', WC, "@persistence.auto_persist('_pos')\nclass _BlockStepper", "class _BlockStepper", 'fire', '_BlockStepper')
+m('c08-if-child-wrong-branch', 'C08', WC, "self._if_instruction[self._pos].body.recreate_stepper(stepper_state, self._workchain)", "self._if_instruction[0].body.recreate_stepper(stepper_state, self._workchain)", 'fire', '_IfStepper')
+m('c08-while-child-key-mismatch', 'C08', WC, "            out_state[STEPPER_STATE] = self._child_stepper.save()\n\n    def load_instance_state(self, saved_state: SAVED_STATE_TYPE, load_context: persistence.LoadSaveContext) -> None:\n        super().load_instance_state(saved_state, load_context)\n        self._while_instruction",
+  "            out_state['child'] = self._child_stepper.save()\n\n    def load_instance_state(self, saved_state: SAVED_STATE_TYPE, load_context: persistence.LoadSaveContext) -> None:\n        super().load_instance_state(saved_state, load_context)\n        self._while_instruction", 'fire', '_WhileStepper')
+m('c08-recreate-wrong-class', 'C08', WC, "        return cast(_WhileStepper, _WhileStepper.recreate_from(saved_state, load_context))", "        return cast(_WhileStepper, _IfStepper.recreate_from(saved_state, load_context))", 'fire', '_While')
+m('c08-context-kw-renamed', 'C08', WC, "load_context = persistence.LoadSaveContext(workchain=workchain, if_instruction=self)", "load_context = persistence.LoadSaveContext(workchain=workchain, instruction=self)", 'fire', '_If')
+m('c08-pos-used-before-super', 'C08', WC, "        super().load_instance_state(saved_state, load_context)\n        self._block = load_context.block_instruction\n        stepper_state = saved_state.get(STEPPER_STATE, None)\n        self._child_stepper = None\n        if stepper_state is not None:\n            self._child_stepper = self._block[self._pos].recreate_stepper(stepper_state, self._workchain)",
+  "        self._block = load_context.block_instruction\n        self._workchain = load_context.workchain\n        self._pos = 0\n        stepper_state = saved_state.get(STEPPER_STATE, None)\n        self._child_stepper = None\n        if stepper_state is not None:\n            self._child_stepper = self._block[self._pos].recreate_stepper(stepper_state, self._workchain)\n        super().load_instance_state(saved_state, load_context)", 'fire', '_BlockStepper')
+m('c08-fn-not-saved', 'C08', WC, "        out_state['_fn'] = self._fn.__name__", "        out_state['fn'] = self._fn.__name__", 'fire', '_FunctionStepper')
+m('c08-stepper-not-recreated', 'C08', WC, "            self._stepper = self.spec().get_outline().recreate_stepper(stepper_state, self)", "            self._stepper = self.spec().get_outline().create_stepper(self)", 'fire', 'WorkChain')
+m('c08-context-not-loaded', 'C08', MI, "            self._context = AttributesDict(**saved_state[self.CONTEXT])", "            self._context = AttributesDict()", 'fire', 'ContextMixin')
+m('c08-runfn-by-repr', 'C08', PS, "        out_state[self.RUN_FN] = self.run_fn.__name__\n        if self._command is not None:", "        out_state[self.RUN_FN] = str(self.run_fn)\n        if self._command is not None:", 'fire', 'Running')
+m('c08-communicator-unguarded', 'C08', P, "        if 'communicator' in load_context:\n            self._communicator = load_context.communicator", "        self._communicator = load_context.communicator", 'fire', 'load_instance_state')
+m('c08-silent-description', 'C08', WC, "        return 'Return from the outline immediately'", "        return 'Return from the outline'", 'silent')
+
+# ------------------------------------------------------------------ C19
+m('c19-no-copy-of-parent-set', 'C19', PE, "            savable._auto_persist = set(savable._auto_persist)", "            pass", 'fire', 'auto_persist')
+m('c19-loader-precedence-reordered', 'C19', PE, "    if context.loader is not None:\n        return context\n", "", 'fire', '_ensure_object_loader')
+m('c19-meta-path-reverted', 'C19', PE, "            return saved_state[META][META__USER][name]", "            return saved_state[META][name]", 'fire', 'get_custom_meta', 'reverts the G12 fix (path)')
+m('c19-loader-not-instantiated', 'C19', PE, "        loader = default_loader.load_object(loader_identifier)()", "        loader = default_loader.load_object(loader_identifier)", 'fire', '_ensure_object_loader', 'reverts the G12 fix (instance)')
+m('c19-method-tag-not-reversed', 'C19', PE, "        if typ == META__TYPE__METHOD:\n            value = getattr(self, value)\n        elif typ == META__TYPE__SAVABLE:", "        if typ == META__TYPE__SAVABLE:", 'fire', '_get_value')
+m('c19-same-tags', 'C19', PE, "META__TYPE__SAVABLE: str = 'S'", "META__TYPE__SAVABLE: str = 'm'", 'fire', 'tags')
+m('c19-loader-error-type', 'C19', LO, "            raise ValueError(f'module `{mod_name}` from identifier `{identifier}` could not be loaded.') from exc", "            raise", 'fire', 'load_object')
+m('c19-cancelled-branch-missing', 'C19', PE, "        if state == asyncio.futures._CANCELLED:  # type: ignore\n            obj = cls(loop=loop)\n            obj.cancel()\n", "", 'fire', 'recreate_from')
+m('c19-future-exception-not-saved', 'C19', PE, "        if self.done() and self.exception() is not None:\n            out_state['exception'] = self.exception()", "        pass", 'fire', 'SavableFuture')
+m('c19-foreign-method-accepted', 'C19', PE, "                if value.__self__ is not self:\n                    raise TypeError('Cannot persist methods of other classes')\n", "", 'fire', 'save_members')
+m('c19-loader-always-recorded', 'C19', PE, "        if save_context.loader is not None:\n            loader_class = default_loader.identify_object(save_context.loader.__class__)\n            Savable.set_custom_meta(out_state, META__OBJECT_LOADER, loader_class)\n            loader = save_context.loader\n        else:\n            loader = default_loader",
+  "        loader = save_context.loader if save_context.loader is not None else default_loader\n        Savable.set_custom_meta(out_state, META__OBJECT_LOADER, default_loader.identify_object(loader.__class__))", 'fire', 'Savable.save')
+m('c19-type-path-mismatch', 'C19', PE, "            return saved_state[META][META__TYPES][name]", "            return saved_state[META__TYPES][name]", 'fire', '_get_meta_type')
+m('c19-silent-docstring', 'C19', PE, '        """Add additional information to the context by making a copy with the new values"""', '        """Copy the context, extended with the new values."""', 'silent')
